@@ -208,7 +208,7 @@ pub fn arb_case(p: TreeParams) -> BoxedStrategy<Case> {
 }
 
 fn run(ctx: &mut Ctx) {
-    let cases = ctx.share(ctx.tier.pick(40_000, 1_500_000));
+    let cases = ctx.share(ctx.tier.pick(250_000, 2_500_000));
     let p = ctx.tier.pick(TreeParams::small(), TreeParams::quick());
     run_strategy(ctx, "C17", "batches", cases, arb_case(p), check);
 }
